@@ -20,6 +20,16 @@ SURFACE_UNITS = ('coap_pdu.c', 'coap_option.c', 'coap_net.c', 'coap_block.c', 'c
 SRC_CALLS = ('coap_decode_var_bytes', 'coap_decode_var_bytes8', 'coap_opt_length', 'oscore_cbor_get_element_size', 'oscore_cbor_get_next_element',
              'oscore_cbor_get_number', 'get_byte', 'get_byte_inc', 'coap_opt_value', 'coap_get_data', 'coap_get_data_large')
 DECLINED_STATE = ('hdr_ofs', 'http_ofs', 'data_ofs', 'partial_read', 'partial_write')
+PDU_WIRE_FIELDS = ('code', 'type')
+
+
+def _wire_field(y):
+    """header field of a message object that the function was HANDED (parameter): on the receive surface that is what the peer sent.  A
+    message reached through another object (a stored request, a record read from disk) was checked when it was stored and is not judged."""
+    if isinstance(y, dict) and y.get('k') == 'mem' and y.get('rec') == 'coap_pdu_t' and y.get('f') in PDU_WIRE_FIELDS:
+        b = strip(y.get('b'))
+        return isinstance(b, dict) and b.get('k') == 'var' and 'pi' in b
+    return False
 
 
 def option_length_table(P):
@@ -129,6 +139,9 @@ def tainted_set(P, f):
                         return True
             if y.get('k') in ('var', 'mem') and ap(y) in T:
                 return True
+            # header fields of a message object: on the receive surface the PDU a function is handed is what the peer sent
+            if _wire_field(y):
+                return True
         return False
     changed = True
     n = 0
@@ -201,7 +214,8 @@ def run(run, P, units=SURFACE_UNITS, only=None):
         for b, ev in P.events(f):
             t = ev['e']
             if t.get('k') == 'sub' and t.get('alen') and const_int(t['i']) is None:
-                if any(isinstance(y, dict) and ap(y) in T for y in walk(t['i'])) or any(isinstance(y, dict) and y.get('k') == 'call' and y.get('fn') in SRC_CALLS for y in walk(t['i'])):
+                if any(isinstance(y, dict) and ap(y) in T for y in walk(t['i'])) or any(isinstance(y, dict) and y.get('k') == 'call' and y.get('fn') in SRC_CALLS for y in walk(t['i'])) or \
+                        any(_wire_field(y) for y in walk(t['i'])):
                     base = strip(t['b'])
                     if not any(isinstance(y, dict) and ((y.get('k') == 'mem' and y['f'] in DECLINED_STATE) or ap(y) in D) for y in walk(t['i'])):
                         sites.append((id(ev), 'idx'))
